@@ -153,6 +153,12 @@ for pid in ("C04", "C05", "C16"):
     PROPS[pid] = {"jobs": [chain_job(pid)], "bounds": CHAIN_BOUNDS, "stubs": CHAIN_STUBS + ["params subspace -> value kept in the context model", "telemetry -> no-op"],
         "outside_claim": ["more than one group per deployment, more than 2 order/provider slots", "provider deletion (unimplemented in the repo)", "Begin/EndBlock (empty for the akash modules)"],
         "assumptions": CHAIN_ASSUME}
+C16_CODEC = ["Harness_C16_codec_%s" % k for k in ("deployment", "group", "order", "bid_lease", "provider_audit")]
+PROPS["C16"] = dict(PROPS["C16"])
+PROPS["C16"]["jobs"] = [chain_job("C16"),
+    {"pkg": "zzverif/c16", "pkgname": "zzc16", "files": ["harness/C16/codec.go"], "quick": C16_CODEC, "thorough": C16_CODEC,
+     "opts": {"timeout": 20000, "witness": 4}, "reach": dict((h, ["parsed"]) for h in C16_CODEC)}]
+PROPS["C16"]["bounds"] = {k: v + "; event codecs: every typed event of the deployment, market, provider and audit modules with arbitrary uint64 dseq, uint32 gseq/oseq, price amount in [0,2^100), rendered by ToSDKEvent, stringified and parsed back by sdkutil.ParseEvent + the module's ParseEvent" for k, v in CHAIN_BOUNDS.items()}
 PROPS["C05"]["jobs"] = [chain_job("C05"), esc_job("C05")]
 PROPS["C01"]["jobs"] = PROPS["C01"]["jobs"] + [chain_job("C01")]
 PROPS["C03"]["jobs"] = PROPS["C03"]["jobs"] + [chain_job("C03")]
@@ -168,6 +174,7 @@ PROPS["C06"] = {
                  ["Harness_C06_escrow_keys_%s" % s for s in ("11", "12", "21", "22", "13", "23", "33", "35", "55")]),
         c06_keys("x/audit/keeper", "keys_audit.go", ["Harness_C06_audit_keys"]),
         c06_keys("x/cert/keeper", "keys_cert.go", ["Harness_C06_cert_keys"]),
+        c06_keys("x/market/types", "ids.go", ["Harness_C06_escrow_ids"]),
         chain_job("C06"), esc_job("C06"),
     ],
     "bounds": {"quick": "signers: all 19 message types with arbitrary 20-byte addresses and sequence numbers; key separation: arbitrary 20-byte owner/provider/auditor addresses, arbitrary uint64/uint32 sequence numbers (bit-vectors through the real encoding/binary code), escrow ids with decimal renderings of 1..3 digits (thorough 1..5), certificate serials < 2^24; frame and only-the-signer-pays clauses on the chain step (12 handlers) and escrow step",
@@ -189,11 +196,14 @@ PROPS["C07"] = {
         {"pkg": "x/audit/keeper", "files": ["harness/C07/audit.go"], "shims": ["shim.go.tmpl", "shim_chain.go.tmpl"],
          "quick": C07_AUD, "thorough": C07_AUD + ["Harness_C07_audit_update_3_2"], "opts": {"timeout": 20000}, "native_replay": True},
         c07_chain(),
+        {"pkg": "x/cert/keeper", "files": ["harness/C17/certs.go", "harness/C07/cert.go"], "shims": ["shim.go.tmpl", "shim_chain.go.tmpl", "shim_cert.go.tmpl"],
+         "quick": ["Harness_C07_cert_create_1", "Harness_C07_cert_revoke_1"], "thorough": ["Harness_C07_cert_create_1", "Harness_C07_cert_revoke_1"],
+         "opts": {"timeout": 20000, "maxbigbytes": 9}, "reach": {"Harness_C07_cert_create_1": ["executed-twice", "accepted"]}},
     ],
-    "bounds": {"quick": "2-run self-composition: (B) audit keeper CreateOrUpdate/DeleteProviderAttributes with <=2 (delete: 3) stored and <=2 new attributes, symbolic 1-byte keys/values, every map iteration order of both runs; (A) 11 of the 12 deployment/market handlers (thorough: all 12) executed twice on forked contexts from the arbitrary INV pre-state of the chain step with map iteration order inside the code under test turned into choice points",
+    "bounds": {"quick": "2-run self-composition: (B) audit keeper CreateOrUpdate/DeleteProviderAttributes with <=2 (delete: 3) stored and <=2 new attributes, symbolic 1-byte keys/values, every map iteration order of both runs; (A) 11 of the 12 deployment/market handlers (thorough: all 12) executed twice on forked contexts from the arbitrary INV pre-state of the chain step with map iteration order inside the code under test turned into choice points; (C) certificate create / revoke executed twice at two different wall-clock instants (two-epoch clock; the certificate's validity window contains either, both or none) from a state of 1 stored certificate",
                "thorough": "adds 3 stored attributes and CloseDeployment"},
     "stubs": CHAIN_STUBS + ["sort.Slice/SliceStable -> the real stable_func/pdqsort_func SSA with an engine swapper", "Go map iteration order -> one choice point per range statement in code under test (all permutations)"],
-    "outside_claim": ["non-determinism inside Tendermint/IAVL/protobuf encoding", "time.Now/rand/goroutines (none is reachable from the handlers: any call would end the path as unsupported and be reported)", "provider/cert handlers (no map, no iteration)"],
+    "outside_claim": ["non-determinism inside Tendermint/IAVL/protobuf encoding", "rand/goroutines (none is reachable from the handlers: any call would end the path as unsupported and be reported)", "provider and audit-message handlers beyond the audit keeper kernels"],
     "assumptions": CHAIN_ASSUME + ["native replay cannot force Go's map order; a counterexample is confirmed by re-running the real code until the two orders are observed"],
 }
 
@@ -232,8 +242,11 @@ C18_Q = ["Harness_C18_faithful_1x1", "Harness_C18_faithful_2x1", "Harness_C18_fa
 PROPS["C18"] = {
     "jobs": [{"pkg": "sdl", "files": ["harness/C18/sdl.go"], "quick": C18_Q,
               "thorough": C18_Q + ["Harness_C18_faithful_2x2", "Harness_C18_faithful_1x1e2", "Harness_C18_determinism_2x2"], "opts": {"timeout": 30000},
-              "reach": {"Harness_C18_faithful_1x1": ["translated", "document-valid"]}}],
-    "bounds": {"quick": "decoded SDL v2 value: <=2 services x <=2 placements (not both 2 in quick) x <=2 compute profiles, 1 expose per service (thorough 2) with symbolic port/as/proto/to/global, symbolic 1-byte image suffix/command/argument/env value, symbolic counts, cpu/memory/storage and prices inside the chain's limits; determinism: two runs with every Go map iteration order explored independently",
+              "reach": {"Harness_C18_faithful_1x1": ["translated", "document-valid"]}},
+             {"pkg": "sdl", "files": ["harness/C18/toplevel.go"], "shims": ["shim.go.tmpl", "shim_loop.go.tmpl"],
+              "quick": ["Harness_C18_toplevel_order"], "thorough": ["Harness_C18_toplevel_order"], "opts": {"timeout": 30000, "witness": 4},
+              "reach": {"Harness_C18_toplevel_order": ["unmarshalled"]}}],
+    "bounds": {"quick": "top level: (*sdl).UnmarshalYAML on a mapping node with the entries version/services/profiles/deployment in all 24 orders (node.Decode stubbed in the engine); decoded SDL v2 value: <=2 services x <=2 placements (not both 2 in quick) x <=2 compute profiles, 1 expose per service (thorough 2) with symbolic port/as/proto/to/global, symbolic 1-byte image suffix/command/argument/env value, symbolic counts, cpu/memory/storage and prices inside the chain's limits; determinism: two runs with every Go map iteration order explored independently",
                "thorough": "2x2 services x placements, 2 exposes"},
     "stubs": COMMON_STUBS + ["sort.Slice/sort.Strings -> real sort code with an engine swapper", "regexp (service names, env names, hostnames) -> native evaluation on concrete strings"],
     "outside_claim": ["YAML parsing and unit-string parsing (yaml.Unmarshal, units.go): the claim starts at the decoded v2 value, so 'any reordering of YAML mapping keys' is covered as 'any Go map iteration order'", "the version hash (json.Marshal/SortJSON/SHA-256)"],
@@ -275,8 +288,11 @@ PROPS["C14"] = {
 PROPS["C20"] = {
     "jobs": [{"pkg": "provider/manifest", "files": ["harness/C20/manager.go"], "shims": ["shim.go.tmpl", "shim_loop.go.tmpl"],
               "quick": ["Harness_C20_5"], "thorough": ["Harness_C20_6", "Harness_C20_7"],
-              "opts": {"timeout": 20000, "witness": 6}, "reach": {"Harness_C20_5": ["returned", "idle"]}}],
-    "bounds": {"quick": "manifest (*manager).run: <=5 environment selects before shutdown is forced; <=2 lease notifications, 1 lease removal, <=2 manifest submissions of 3 kinds (valid, other version, structurally invalid) each with its own capacity-1 reply channel, 1 version update, chain-data fetch ok/failed at any scheduler-chosen point, shutdown at any point; validateRequest runs the real validators on concrete manifests",
+              "opts": {"timeout": 20000, "witness": 6}, "reach": {"Harness_C20_5": ["returned", "idle"]}},
+             {"pkg": "provider/manifest", "files": ["harness/C20/submit.go"], "shims": ["shim.go.tmpl", "shim_loop.go.tmpl"],
+              "quick": ["Harness_C20_submit"], "thorough": ["Harness_C20_submit"],
+              "opts": {"timeout": 20000, "witness": 2}, "reach": {"Harness_C20_submit": ["accepted-then-abandoned"]}}],
+    "bounds": {"quick": "(*service).Submit with a submitter that gives up before or after its request is accepted: the reply channel handed to the manager accepts the manager's single reply without a receiver; manifest (*manager).run: <=5 environment selects before shutdown is forced; <=2 lease notifications, 1 lease removal, <=2 manifest submissions of 3 kinds (valid, other version, structurally invalid) each with its own capacity-1 reply channel, 1 version update, chain-data fetch ok/failed at any scheduler-chosen point, shutdown at any point; validateRequest runs the real validators on concrete manifests",
                "thorough": "6 and 7 selects"},
     "stubs": LOOP_STUBS + ["sdl.ManifestVersion -> injective tag of the manifest content in the engine (the JSON/SHA-256 hash is outside the encodable fragment); natively the real hash", "hostname service -> always available"],
     "outside_claim": ["the watchdog and the service-level routing of submissions to managers", "the stop timer's linger period (the timer may fire at any select)", "true multi-goroutine interleavings"],
@@ -313,13 +329,13 @@ PROPS["C09"] = {
     "assumptions": ["tls.Config.VerifyPeerCertificate is the only admission decision (InsecureSkipVerify is set by the code)"],
 }
 
-C15_Q = ["Harness_C15_root_0", "Harness_C15_root_2", "Harness_C15_sub_0_2", "Harness_C15_sub_1_0", "Harness_C15_sub_1_1", "Harness_C15_sub_2_0", "Harness_C15_sub_2_2"]
+C15_Q = ["Harness_C15_root_0", "Harness_C15_root_2", "Harness_C15_sub_0_2", "Harness_C15_sub_1_0", "Harness_C15_sub_1_1", "Harness_C15_sub_2_0", "Harness_C15_sub_2_2", "Harness_C15_root_2d", "Harness_C15_sub_1_2d"]
 PROPS["C15"] = {
     "jobs": [{"pkg": "pubsub", "files": ["harness/C15/bus.go"], "shims": ["shim.go.tmpl", "shim_loop.go.tmpl"],
-              "quick": C15_Q, "thorough": C15_Q + ["Harness_C15_sub_3_1"], "opts": {"timeout": 20000, "witness": 4},
+              "quick": C15_Q, "thorough": C15_Q + ["Harness_C15_sub_3_1", "Harness_C15_root_3d"], "opts": {"timeout": 20000, "witness": 4},
               "reach": {"Harness_C15_sub_2_2": ["stepped"]}}],
-    "bounds": {"quick": "single-step lemmas on the real (*bus).run body and newSubscriber: bus in root or subscriber mode with 0/1/2 buffered events and 0/1/2 children; one of publish / emit / subscribe(clone) / unsubscribe, then shutdown with its post-loop collection of children",
-               "thorough": "adds 3 buffered events x 1 child"},
+    "bounds": {"quick": "single-step lemmas on the real (*bus).run body and newSubscriber: bus in root or subscriber mode with 0/1/2 buffered events and 0/1/2 children; one of publish / emit / subscribe(clone) / unsubscribe, then shutdown with its post-loop collection of children; variants in which one of 2 children has already begun shutting down (it no longer reads; every map iteration order)",
+               "thorough": "adds 3 buffered events x 1 child, and 3 children one of them closing"},
     "stubs": LOOP_STUBS + ["child buses -> environment sinks/sources (their own loops are not run in the engine; natively live reader goroutines stand in for them)"],
     "outside_claim": ["the end-to-end statement over all interleavings of concurrent goroutines: it follows from the step lemmas only through a hand-written compositional argument (per-subscriber FIFO invariant) that is not solver-checked", "data races"],
     "assumptions": ["bus state is touched only by its own loop goroutine"],
@@ -327,7 +343,7 @@ PROPS["C15"] = {
     "explanation": "Solver-decided single-step lemmas on the real (*bus).run body and newSubscriber (publish hands the event to every child once and appends it once; emit sends and drops exactly the oldest buffered event; a clone starts with a private copy of the undelivered buffer; unsubscribe removes the child; shutdown signals and collects every child and notifies the parent once; no step blocks). The property's end-to-end statement over all interleavings of concurrent goroutines follows from these lemmas only through a hand-written compositional argument (per-subscriber FIFO invariant: delivered ++ buffer = published since subscription) which is NOT checked by the solver; multi-goroutine interleavings are outside bounded single-goroutine symbolic execution.",
 }
 
-PROPS["C10"]["jobs"] = PROPS["C10"]["jobs"] + PROPS["C20"]["jobs"]
+PROPS["C10"]["jobs"] = PROPS["C10"]["jobs"] + PROPS["C20"]["jobs"][:1]
 PROPS["C10"]["bounds"] = {k: v + "; version rule of validateRequest: in the C20 manager harness a manifest is accepted only with the expected version (last update, else chain version) - version hashes are injective tags" for k, v in PROPS["C10"]["bounds"].items()}
 
 PROPS["C02"]["jobs"] = PROPS["C02"]["jobs"] + [esc_job("C02")]
